@@ -341,12 +341,25 @@ func (w *c15World) progress() bool {
 	return w.quiesce()
 }
 
+// c15ShortOfWatches counts (per process) reloads/attaches after which fewer Watch
+// calls than listened keys were seen although every watch goroutine was parked.
+var c15ShortOfWatches int64
+
 func (w *c15World) waitWatches(n int, what string) bool {
-	if !vk.WaitUntil(c15Watchdog, func() bool { return w.etcd.watchCount() >= n }) {
-		w.inconclusive("%s: expected %d Watch calls, saw %d within %v", what, n, w.etcd.watchCount(), c15Watchdog)
-		return false
+	if vk.WaitUntil(c15Watchdog, func() bool { return w.etcd.watchCount() >= n }) {
+		return true
 	}
-	return true
+	// Fewer watches than listened keys. If every goroutine of the package is parked in
+	// its loop nobody is going to call Watch any more: go on with the watchers that
+	// exist - events of an unwatched key reach nobody and the oracle decides. Bounded,
+	// because each occurrence costs the watchdog.
+	if c15WatchersIdle(0) && atomic.AddInt64(&c15ShortOfWatches, 1) <= 3 {
+		w.m.Note("case %d: %s: expected %d Watch calls, saw %d; all watch goroutines parked - continuing with the existing watchers", w.idx, what, n, w.etcd.watchCount())
+		w.m.Count("reloads_with_fewer_watches_than_keys", 1)
+		return true
+	}
+	w.inconclusive("%s: expected %d Watch calls, saw %d within %v", what, n, w.etcd.watchCount(), c15Watchdog)
+	return false
 }
 
 // syncSvc: the model of a snapshot load for one service key: the subscribers
@@ -522,9 +535,16 @@ func (w *c15World) rewatch(i int, cancel bool) {
 	if !w.waitWatches(nb+1, "re-watch") {
 		return
 	}
-	nw := w.etcd.watchesFrom(nb)[0]
-	w.live[i] = nw
+	nws := w.etcd.watchesFrom(nb)
 	w.nRewatch++
+	if len(nws) == 0 {
+		// the stream was not re-established: its events now reach nobody
+		w.live = append(w.live[:i], w.live[i+1:]...)
+		w.check("after-rewatch")
+		return
+	}
+	nw := nws[0]
+	w.live[i] = nw
 	// The new stream replays what etcd has after the revision it asks for. For plain
 	// subscribers a replay is idempotent. An exclusive subscriber that joined later
 	// than that revision now sees older registrations again (e.g. a publisher that
